@@ -133,28 +133,33 @@ def step0 (d : St) (line : String) : St × String :=
 
 def sideB (x : String) : Bool := x != "a"
 
-def shadowReader (p : PSys) (x : String) (n : Nat) (op : POp) : Option PSys :=
+/-- the shadow state after the line, and (for ReadBytes / Peek that ran) what `pout` says they return -/
+def shadowReader (p : PSys) (x : String) (n : Nat) (op : POp) : Option (PSys × Option (List Nat)) :=
   let b := sideB x
   let p1 := if (p.get b).recv.len ≥ n then some p else pstep p (.more b)
   match p1 with
   | none => none
-  | some p1 => if (p1.get b).recv.len ≥ n then pstep p1 op else some p1
+  | some p1 =>
+    if (p1.get b).recv.len ≥ n then (pstep p1 op).map (fun p2 => (p2, some (pout p1 op))) else some (p1, none)
 
 /-- `some (some p')`: the line maps to operations of the system; `some none`: it does not (shadow ends); `none`: panic -/
-def shadowStep (p : PSys) (line : String) : Option (Option PSys) :=
+def shadowStep (p : PSys) (line : String) : Option (Option (PSys × Option (List Nat))) :=
+  let plain (r : Option PSys) : Option (Option (PSys × Option (List Nat))) := r.map (fun p' => some (p', none))
+  let quiet (r : Option (PSys × Option (List Nat))) : Option (Option (PSys × Option (List Nat))) :=
+    r.map (fun (p', _) => some (p', none))
   match Drv.words line with
-  | ["wb", x, h] => (pstep p (.write (sideB x) (unhex h))).map some
-  | ["wbyte", x, b] => (pstep p (.writeByte (sideB x) (Drv.nat! b))).map some
-  | ["flush", x] => (pstep p (.flush (sideB x))).map some
+  | ["wb", x, h] => plain (pstep p (.write (sideB x) (unhex h)))
+  | ["wbyte", x, b] => plain (pstep p (.writeByte (sideB x) (Drv.nat! b)))
+  | ["flush", x] => plain (pstep p (.flush (sideB x)))
   | ["rb", x, n] => (shadowReader p x (Drv.nat! n) (.readBytes (sideB x) (Drv.nat! n))).map some
   | ["pk", x, n] => (shadowReader p x (Drv.nat! n) (.peek (sideB x) (Drv.nat! n))).map some
-  | ["dc", x, n] => (shadowReader p x (Drv.nat! n) (.discard (sideB x) (Drv.nat! n))).map some
-  | ["rbyte", x] => (shadowReader p x 1 (.readByte (sideB x))).map some
-  | ["rs", x, n] => (shadowReader p x (Drv.nat! n) (.readString (sideB x) (Drv.nat! n))).map some
-  | ["rd", x, n] => if Drv.nat! n = 0 then some (some p) else (shadowReader p x 1 (.readInto (sideB x) (Drv.nat! n))).map some
-  | ["rel", x] => (pstep p (.release (sideB x))).map some
-  | ["cls", x] => (pstep p (.close (sideB x))).map some
-  | ["len", _] => some (some p)
+  | ["dc", x, n] => quiet (shadowReader p x (Drv.nat! n) (.discard (sideB x) (Drv.nat! n)))
+  | ["rbyte", x] => quiet (shadowReader p x 1 (.readByte (sideB x)))
+  | ["rs", x, n] => quiet (shadowReader p x (Drv.nat! n) (.readString (sideB x) (Drv.nat! n)))
+  | ["rd", x, n] => if Drv.nat! n = 0 then some (some (p, none)) else quiet (shadowReader p x 1 (.readInto (sideB x) (Drv.nat! n)))
+  | ["rel", x] => plain (pstep p (.release (sideB x)))
+  | ["cls", x] => plain (pstep p (.close (sideB x)))
+  | ["len", _] => some (some (p, none))
   | _ => some none
 
 def step (d : St) (line : String) : St × String :=
@@ -169,8 +174,13 @@ def step (d : St) (line : String) : St × String :=
       match shadowStep p line with
       | none => ({ d' with ps := none }, out ++ " shadow-panic")
       | some none => ({ d' with ps := none }, out)
-      | some (some p') =>
-        if p'.m == d'.s.m && p'.a == d'.s.a && p'.b == d'.s.b then ({ d' with ps := some p' }, out)
-        else ({ d' with ps := none }, out ++ " shadow-mismatch")
+      | some (some (p', bytes)) =>
+        let sameState := p'.m == d'.s.m && p'.a == d'.s.a && p'.b == d'.s.b
+        -- `pout` (what the refinement theorem calls the result of a reader call) is what this line printed
+        let sameOut := match bytes with
+          | some bs => out.startsWith ("ok " ++ hex bs ++ " ")
+          | none => true
+        if sameState && sameOut then ({ d' with ps := some p' }, out)
+        else ({ d' with ps := none }, out ++ (if sameState then " shadow-output-mismatch" else " shadow-mismatch"))
 
 end Drv.C06
